@@ -14,7 +14,7 @@
 From Coq Require Import List ZArith NArith Bool.
 Import ListNotations.
 From LC Require Import Base Regex RegexFacts FlexEngine Bisim ScanAction ScannerSpec ScannerCert ScannerFacts
-  Lexer Reader.
+  Tokens Lexer Reader LexTotal LineFacts.
 From LC.gen Require Import ScannerTables.
 Local Open Scope Z_scope.
 
@@ -68,3 +68,26 @@ Example C18_examples :
   flex_match the_tables 0 false [64; 105; 110; 99; 108; 117; 100; 101; 32; 34] = Some (47, 1%nat) /\
   flex_match the_tables 0 true [64; 105; 110; 99; 108; 117; 100; 101; 32; 34] = Some (22, 10%nat).
 Proof. vm_compute. repeat split. Qed.
+
+(* ---- lines ---- *)
+(* flex counts line feeds only for the rules it flags (yy_rule_can_match_eol, re-read from scanner.c on every run);
+   no unflagged documented pattern can match a line feed, so the count is exact after every matcher step *)
+Theorem C18_line_exact : forall sc bol b r rule len,
+  In (sc, bol) all_conditions -> bytes_ok (b :: r) ->
+  flex_match ScannerCert.the_tables sc bol (b :: r) = Some (rule, len) ->
+  forall line, (if nthZ yy_rule_can_match_eol rule =? 0 then line else line + count_nl (firstn len (b :: r)))
+               = line + count_nl (firstn len (b :: r)).
+Proof. exact line_exact. Qed.
+Print Assumptions C18_line_exact.
+
+(* one step of the scanner model: the buffer advances by the lexeme, its line by the lexeme's line feeds, and a
+   token returned by the step carries the line reached *)
+Theorem C18_step_line : forall atof FS incdir incf max_depth st b,
+  cond_ok st -> b_rest b <> [] -> bytes_ok (b_rest b) ->
+  match lex_step ScannerCert.the_tables yy_rule_can_match_eol yy_actions atof FS incdir incf max_depth st b with
+  | SCont _ b' | SIncl _ _ _ b' => advanced b b'
+  | STok tk _ b' => advanced b b' /\ lt_line tk = b_line b'
+  | SStop _ _ _ _ => True
+  end.
+Proof. exact lex_step_line. Qed.
+Print Assumptions C18_step_line.
